@@ -34,7 +34,7 @@ ASSUMPTIONS = ["deterministic base learners and fixed random_state, so that equa
 EXHAUSTIVE = {"quick": ["all operation sequences of length <= 2 and all sequences of length 3 that end in a fit, per kit and data variant"],
               "thorough": ["all operation sequences of length <= 4 per kit and data variant"]}
 OPS = ["fit1", "fit2", "predict", "pickle", "clone"]
-KITS = ["to_prefit", "to_fit", "eg_nu", "eg_nu_none", "grid", "corr", "adv_clf", "adv_reg", "adv_clf_dropout"]
+KITS = ["to_prefit", "to_fit", "eg_nu", "eg_nu_none", "grid", "corr", "adv_clf", "adv_reg", "adv_clf_dropout", "corr_df"]
 VARIANTS = ["other_size", "other_width"]
 
 
@@ -104,6 +104,8 @@ def make(kit):
         return red.GridSearch(ExactLearner("thresholds"), red.TruePositiveRateParity(difference_bound=0.05), grid_size=9, grid_limit=2.0)
     if kit == "corr":
         return CorrelationRemover(sensitive_feature_ids=[1], alpha=0.7)
+    if kit == "corr_df":
+        return CorrelationRemover(sensitive_feature_ids=["c1"], alpha=1.0)
     if kit == "adv_clf":
         return AdversarialFairnessClassifier(backend="torch", predictor_model=[4, "relu"], adversary_model=[3, "relu"], learning_rate=0.05,
                                              epochs=2, batch_size=8, shuffle=False, random_state=11, predictor_optimizer="Adam", adversary_optimizer="SGD")
@@ -123,9 +125,21 @@ def make(kit):
     raise ValueError(kit)
 
 
+def _as_df(D, which_probe=False):
+    """corr_df kit: named columns; the second data set lists the same names in another order."""
+    A = D["probe"] if which_probe else D["X"]
+    names = ["c%d" % j for j in range(A.shape[1])]
+    df = pd.DataFrame(A, columns=names)
+    if D["X"].shape[0] != 18:  # D2 (26 rows): reordered columns
+        df = df[names[1:] + names[:1]]
+    return df
+
+
 def do_fit(kit, est, D):
     if kit == "corr":
         return est.fit(D["X"])
+    if kit == "corr_df":
+        return est.fit(_as_df(D))
     if kit.startswith("adv_reg"):
         return est.fit(D["X"], D["yreg"], sensitive_features=D["g"])
     return est.fit(D["X"], D["y"], sensitive_features=D["g"])
@@ -143,6 +157,8 @@ def fingerprint(kit, est, D):
                 "objectives": np.asarray(est.objectives_, float)}
     if kit == "corr":
         return {"transform": np.asarray(est.transform(P))}
+    if kit == "corr_df":
+        return {"transform": np.asarray(est.transform(_as_df(D, True)))}
     fp = {"pred": np.asarray(est.predict(P)).astype(float) if kit.startswith("adv_reg") else np.asarray([repr(v) for v in est.predict(P)]),
           "raw": np.asarray(est._raw_predict(P))}
     be = getattr(est, "backendEngine_", None)
@@ -160,6 +176,8 @@ def predict_once(kit, est, D):
         return np.asarray(est.predict(P, random_state=3))
     if kit == "corr":
         return np.asarray(est.transform(P))
+    if kit == "corr_df":
+        return np.asarray(est.transform(_as_df(D, True)))
     return np.asarray(est.predict(P))
 
 
@@ -222,7 +240,7 @@ def run_case(cls, key, seed, ctx):
                 ret = do_fit(kit, est, D)
             except Exception as e:  # noqa: BLE001
                 mech = "fit_on_used_estimator_raises:%s" % type(est).__name__
-                if kit == "corr" and var == "other_width" and fitted_on is not None and fitted_on != op and "expecting" in str(e):
+                if kit.startswith("corr") and var == "other_width" and fitted_on is not None and fitted_on != op and "expecting" in str(e):
                     mech = "refit_raises:CorrelationRemover:different_number_of_columns"
                 ctx.violate(mech, error=repr(e)[:300], wit=w)
                 return
